@@ -1,7 +1,7 @@
 //! Run context shared by all checks: counters, distinct-case hashing, samples,
 //! violations; rendered as one JSON report that the driver merges.
 
-use vcore::util::{fnv64, J};
+use crate::util::{fnv64, J};
 use std::collections::{BTreeMap, HashSet};
 
 #[derive(Clone, Copy, Debug, PartialEq, Eq)]
@@ -137,6 +137,60 @@ impl Ctx {
         let n = n.into();
         if self.notes.len() < 50 && !self.notes.contains(&n) {
             self.notes.push(n);
+        }
+    }
+    /// Merge the report of a child process (same format as `report`) into this context.
+    pub fn merge(&mut self, j: &J) {
+        if let Some(n) = j.get("evaluations").and_then(|x| x.as_int()) {
+            self.evals(n as u64);
+        }
+        if let Some(J::Obj(items)) = j.get("counters") {
+            for (k, v) in items {
+                if let Some(n) = v.as_int() {
+                    self.count_n(k, n as u64);
+                }
+            }
+        }
+        if let Some(J::Arr(hs)) = j.get("distinct_hashes") {
+            for h in hs {
+                if let Some(s) = h.as_str() {
+                    self.distinct_raw(u64::from_str_radix(s, 16).unwrap_or(0));
+                }
+            }
+        }
+        if let Some(J::Arr(vs)) = j.get("violations") {
+            for v in vs {
+                let sig = v.get("sig").and_then(|x| x.as_str()).unwrap_or("?").to_string();
+                let subj = v.get("subject").and_then(|x| x.as_str()).unwrap_or("?").to_string();
+                self.violation(&sig, &subj, v.get("detail").cloned().unwrap_or(J::Null));
+            }
+        }
+        if let Some(J::Arr(xs)) = j.get("inconclusive") {
+            for x in xs {
+                if let Some(s) = x.as_str() {
+                    self.inconclusive(s.to_string());
+                }
+            }
+        }
+        if let Some(J::Arr(xs)) = j.get("notes") {
+            for x in xs {
+                if let Some(s) = x.as_str() {
+                    self.note(s.to_string());
+                }
+            }
+        }
+        if let Some(J::Arr(xs)) = j.get("samples") {
+            for x in xs {
+                let label = x.get("kind").and_then(|k| k.as_str()).unwrap_or("child").to_string();
+                self.sample_raw(&label, x.clone());
+            }
+        }
+    }
+    fn sample_raw(&mut self, label: &str, j: J) {
+        let c = self.sample_labels.entry(label.to_string()).or_insert(0);
+        if *c < self.max_samples_per_label && self.samples.len() < 60 {
+            *c += 1;
+            self.samples.push(j);
         }
     }
     pub fn report(&self) -> J {
